@@ -130,6 +130,9 @@ func (s *State) havocAllHeap(why string) {
 		if strings.HasPrefix(k, "Ghost_") && !strings.HasPrefix(k, "Ghost_heap_") {
 			continue
 		}
+		if strings.HasPrefix(k, "G_") && s.X.prog.immutableGlobal[k] {
+			continue // package-level variable never assigned outside init()
+		}
 		s.havocHeap(k)
 	}
 	// allocation: new array is a superset of the old
